@@ -265,7 +265,7 @@ def to_coq(case, obs):
     mode = {"AUTO": "CRAuto", "EXPLICIT": "CRExplicit", "NONE": "CRNone"}[case["mode"]]
     st = obs["setup"]
     if st[0] == "ok":
-        o = "(Ok " + clist([cstrlist(sorted(opts)) for _, _, opts, _ in obs["fields"]]) + ")"
+        o = "(Ok " + clist([cstrlist(list(opts)) for _, _, opts, _ in obs["fields"]]) + ")"
     else:
         o = outcome(st)
     dests = clist([cstr(d + "." + n if d else n) for d, n, _, _ in obs["fields"]])
